@@ -207,6 +207,7 @@ type Service struct {
 	wg             *sync.WaitGroup        // WaitGroup for all workers of the current run
 	mu             sync.Mutex             // Mutex to protect rwork map
 	ncmu           sync.RWMutex           // Mutex to protect nc from being cleared by Shutdown while in use
+	run            uint64                 // Number of the current run, incremented by each Serve. Protected by ncmu
 	logger         logger.Logger          // Logger
 	queueGroup     string                 // Queue group to use with CharQueueSubscribe
 	resetResources []string               // List of resource name patterns used on system.reset for resources. Defaults to serviceName+">"
@@ -679,6 +680,8 @@ func (s *Service) serve(nc Conn) error {
 	workCh := make(chan *work, 1)
 	s.ncmu.Lock()
 	s.nc = nc
+	s.run++
+	run := s.run
 	s.ncmu.Unlock()
 	s.inCh = inCh
 	// The work queue is set up under the lock: a callback submitted while the
@@ -711,8 +714,10 @@ func (s *Service) serve(nc Conn) error {
 		s.errorf("Failed to subscribe: %s", err)
 		// Shut down before returning. Left to a goroutine of its own, the call
 		// could be delayed until the service has been served again and would
-		// then stop that run.
-		s.Shutdown()
+		// then stop that run. For the same reason it only concerns this run:
+		// while the subscriptions were made, Shutdown may have been called
+		// and the service served again.
+		s.shutdown(nil, run)
 	} else {
 		// Send a system.reset
 		s.ResetAll()
@@ -736,17 +741,23 @@ func (s *Service) serve(nc Conn) error {
 // Shutdown closes any existing connection to NATS Server.
 // Returns an error if service is not started.
 func (s *Service) Shutdown() error {
-	return s.shutdown(nil)
+	return s.shutdown(nil, 0)
 }
 
 // shutdown shuts the service down. If only is not nil, it does so only if the
-// service is still using that connection.
-func (s *Service) shutdown(only *nats.Conn) error {
+// service is still using that connection. If run is not zero, it does so only
+// if that run is still the current one.
+func (s *Service) shutdown(only *nats.Conn, run uint64) error {
 	verifPoint("shutdown.enter", nil)
-	if only != nil {
-		// The connection is set under the same lock before a run is started
+	if only != nil || run != 0 {
+		// The connection and the run number are set under the same lock before a
+		// run is started
 		s.ncmu.Lock()
-		if c, ok := s.nc.(*nats.Conn); !ok || c != only {
+		if c, ok := s.nc.(*nats.Conn); only != nil && (!ok || c != only) {
+			s.ncmu.Unlock()
+			return errNotStarted
+		}
+		if run != 0 && s.run != run {
 			s.ncmu.Unlock()
 			return errNotStarted
 		}
@@ -1178,7 +1189,7 @@ func (s *Service) handleDisconnect(_ *nats.Conn) {
 func (s *Service) handleClosed(nc *nats.Conn) {
 	// The callback is called asynchronously, possibly after the service has been
 	// shut down and served again: it only concerns the run using nc.
-	s.shutdown(nc)
+	s.shutdown(nc, 0)
 }
 
 func validateGetHandler(h Handler) {
